@@ -12,6 +12,7 @@ import argparse
 import contextlib
 import copy
 import io
+import re
 
 from ref import growth as RG
 from ref import patterns as RP
@@ -157,6 +158,10 @@ def _deliver(perms, cont, shuffle):
     if cont == "deque":
         return collections.deque(perms)
     raise ValueError(cont)
+
+
+def _negative(line):
+    return bool(re.search(r"\bnot\b|\bno\b|n't|\bnon", line))
 
 
 def _basis_string(tuples, one_based, sep):
@@ -340,14 +345,27 @@ def execute(case):
                             cli.has_poly_growth(argparse.Namespace(basis=text))
                         else:
                             cli.has_regular_insertion_encoding(argparse.Namespace(basis=text))
-                    printed = buf.getvalue()
+                    printed = buf.getvalue().lower()
+                    # only the verdict is judged, not the wording: a message the harness cannot
+                    # interpret is not judged at all
+                    lines = [ln for ln in printed.splitlines() if ln.strip()]
                     if entry == "cli_poly":
-                        got = ("is polynomial" in printed, "is not polynomial" in printed)
-                        exp = (want["poly"], not want["poly"])
+                        hits = [ln for ln in lines if "polynomial" in ln]
+                        if not hits:
+                            out.probe("cli_output_not_understood")
+                            got = exp = None
+                        else:
+                            got, exp = (not _negative(hits[0])), want["poly"]
                     else:
-                        got = ("regular topmost insertion encoding" in printed, "regular rightmost insertion encoding" in printed,
-                               "does not have a regular insertion encoding" in printed)
-                        exp = (want["top"], want["right"], not want["ins"])
+                        top = [ln for ln in lines if "topmost" in ln]
+                        right = [ln for ln in lines if "rightmost" in ln]
+                        none = [ln for ln in lines if "insertion encoding" in ln and _negative(ln) and "topmost" not in ln and "rightmost" not in ln]
+                        if not (top or right or none):
+                            out.probe("cli_output_not_understood")
+                            got = exp = None
+                        else:
+                            got = (any(not _negative(ln) for ln in top), any(not _negative(ln) for ln in right))
+                            exp = (want["top"], want["right"])
                 else:
                     arg = _deliver(perms, cont, op["shuffle"])
                     if entry == "is_finite":
